@@ -1,3 +1,5 @@
+#[cfg(mos_verif_threads)]
+use mos_simrt::std_shim as std;
 pub use build::*;
 pub use format::*;
 pub use init::*;
